@@ -79,13 +79,15 @@ VARIANTS = {
 # the thorough tiers ('allx').
 VARIANTS_X = {
     'FULLY_CONNECTED': [('nokeepdims', 1)],
-    'CONV_2D': [('2x2valid_relu6', 1)],
-    'DEPTHWISE_CONV_2D': [('m2', 1)],
+    'CONV_2D': [('2x2valid_relu6', 1), ('s2', 1), ('dil2', 1)],
+    'DEPTHWISE_CONV_2D': [('m2', 1), ('k2s2', 1)],
+    'CONV_2D_TRANSPOSE': [('s2', 1)],
     'BATCH_MATMUL': [('const_adjx', 1), ('const_b2', 1)],
-    'AVERAGE_POOL_2D': [('2x2valid', 1)],
+    'AVERAGE_POOL_2D': [('2x2valid', 1), ('s2', 1)],
     'SOFTMAX': [('beta2', 1)],
-    'MEAN': [('nokeep', 1)],
-    'ADD': [('ts', 1), ('s0', 1), ('bc', 1)], 'MUL': [('ts', 1), ('s0', 1)],
+    'MEAN': [('nokeep', 1), ('ax2', 1)],
+    'ADD': [('ts', 1), ('s0', 1), ('bc', 1), ('tt_relu', 2)],
+    'MUL': [('ts', 1), ('s0', 1), ('tc_relu6', 1)],
     'SUB': [('s0', 1), ('bc', 1)],
     'STRIDED_SLICE': [('stride2', 1)],
 }
@@ -376,9 +378,11 @@ def _b_conv(c, v, ins):
                fusedActivationFunction=s.ActivationFunctionType.RELU6)
     c.g.op(BO.CONV_2D, [x, w, b], [y], OPT.Conv2DOptions, opt)
     return [y], 'DWB', w
-  y = c.out(sh[:3] + [4])
-  opt = _opt(s.Conv2DOptionsT, strideW=1, strideH=1, dilationWFactor=1,
-             dilationHFactor=1, padding=0)  # SAME
+  st = 2 if v == 's2' else 1   # SAME padding: out = ceil(in / stride)
+  dil = 2 if v == 'dil2' else 1
+  y = c.out([sh[0], -(-sh[1] // st), -(-sh[2] // st), 4])
+  opt = _opt(s.Conv2DOptionsT, strideW=st, strideH=st, dilationWFactor=dil,
+             dilationHFactor=dil, padding=0)  # SAME
   c.g.op(BO.CONV_2D, [x, w, b], [y], OPT.Conv2DOptions, opt)
   return [y], 'DWB', w
 
@@ -389,10 +393,11 @@ def _b_dw(c, v, ins):
   if len(sh) != 4:
     return None
   mult = 2 if v == 'm2' else 1
-  w = c.fconst('w', [1, 1, 1, sh[3] * mult], weight=True)
+  k, st = (2, 2) if v == 'k2s2' else (1, 1)
+  w = c.fconst('w', [1, k, k, sh[3] * mult], weight=True)
   b = c.fconst('b', [sh[3] * mult], 'rand')
-  y = c.out(sh[:3] + [sh[3] * mult])
-  opt = _opt(s.DepthwiseConv2DOptionsT, strideW=1, strideH=1,
+  y = c.out([sh[0], -(-sh[1] // st), -(-sh[2] // st), sh[3] * mult])
+  opt = _opt(s.DepthwiseConv2DOptionsT, strideW=st, strideH=st,
              dilationWFactor=1, dilationHFactor=1, depthMultiplier=mult,
              padding=0)
   c.g.op(BO.DEPTHWISE_CONV_2D, [x, w, b], [y], OPT.DepthwiseConv2DOptions, opt)
@@ -404,11 +409,12 @@ def _b_tconv(c, v, ins):
   sh = c.g.shape(x)
   if len(sh) != 4:
     return None
-  osh = sh[:3] + [4]
+  k, st = (2, 2) if v == 's2' else (1, 1)
+  osh = [sh[0], sh[1] * st, sh[2] * st, 4]
   os_ = c.iconst('oshape', osh)
-  w = c.fconst('w', [4, 1, 1, sh[3]], weight=True)
-  opt = _opt(s.TransposeConvOptionsT, strideW=1, strideH=1, padding=0)
-  if v == 'bias':
+  w = c.fconst('w', [4, k, k, sh[3]], weight=True)
+  opt = _opt(s.TransposeConvOptionsT, strideW=st, strideH=st, padding=0)
+  if v in ('bias', 's2'):
     b = c.fconst('b', [4], 'rand')
     y = c.out(osh)
     c.g.op(BO.TRANSPOSE_CONV, [os_, w, x, b], [y], OPT.TransposeConvOptions, opt)
@@ -483,11 +489,12 @@ def _unary(code, ot=0, oc=None):
 
 def _binary(code, ot, oc):
   def f(c, v, ins):
-    if v in ('tc', 'ts', 's0'):
+    if v in ('tc', 'ts', 's0', 'tc_relu6'):
       a, = ins
       sh = c.g.shape(a)
       # s0: a rank-0 constant, as the converter emits for `x + 1.0`
-      b = c.fconst('c', {'tc': sh[-1:], 'ts': [1], 's0': []}[v], weight=True)
+      b = c.fconst('c', {'tc': sh[-1:], 'ts': [1], 's0': [],
+                         'tc_relu6': sh[-1:]}[v], weight=True)
     elif v == 'bc':
       # constant whose leading dimension broadcasts the *activation* (the
       # output is larger than the runtime operand)
@@ -503,8 +510,14 @@ def _binary(code, ot, oc):
         return None
       sh = c.g.shape(a)
     y = c.out(sh)
-    c.g.op(code, [a, b], [y], ot, oc())
-    return [y], 'DD', (b if v in ('tc', 'ts', 's0', 'bc') else None)
+    o = oc()
+    if v.endswith('_relu'):
+      o.fusedActivationFunction = s.ActivationFunctionType.RELU
+    if v.endswith('_relu6'):
+      o.fusedActivationFunction = s.ActivationFunctionType.RELU6
+    c.g.op(code, [a, b], [y], ot, o)
+    return [y], 'DD', (b if v in ('tc', 'ts', 's0', 'bc', 'tc_relu6')
+                       else None)
   return f
 
 
@@ -535,6 +548,14 @@ def _b_avgpool(c, v, ins):
   if len(sh) != 4:
     return None
   k = 1 if v == '1x1' else 2
+  if v == 's2':
+    if sh[1] < 2 or sh[2] < 2:
+      return None
+    y = c.out([sh[0], sh[1] // 2, sh[2] // 2, sh[3]])
+    c.g.op(BO.AVERAGE_POOL_2D, [x], [y], OPT.Pool2DOptions,
+           _opt(s.Pool2DOptionsT, strideW=2, strideH=2, filterWidth=2,
+                filterHeight=2, padding=1))
+    return [y], 'D', None
   if v == '2x2valid':
     if sh[1] < 2 or sh[2] < 2:
       return None
@@ -554,6 +575,14 @@ def _b_mean(c, v, ins):
   x, = ins
   sh = c.g.shape(x)
   axis = 1 if len(sh) == 4 else 0
+  if v == 'ax2':
+    if len(sh) != 4:
+      return None
+    ax = c.iconst('axis', [1, 2])
+    y = c.out([sh[0], 1, 1, sh[3]])
+    c.g.op(BO.MEAN, [x, ax], [y], OPT.ReducerOptions,
+           _opt(s.ReducerOptionsT, keepDims=True))
+    return [y], 'DI', None
   ax = c.iconst('axis', [axis])
   osh = list(sh)
   osh[axis] = 1
@@ -781,6 +810,16 @@ def build(ir):
     if sub.get('xout') and 0 in used:
       # the graph input is also returned as an output (pass-through)
       outputs.append((f'out{len(outputs)}', x))
+    if ir.get('zlen'):
+      # a constant with zero elements (data present but empty), as the
+      # converter leaves behind for `reshape(x, [])`; not read by any operator
+      zt = s.TensorT()
+      zt.name = f'{prefix}empty_shape'.encode()
+      zt.shape = np.array([0], dtype=np.int32)
+      zt.type = I32
+      zt.buffer = g.buf(np.zeros(0, dtype=np.int32))
+      zt.quantization = s.QuantizationParametersT()
+      g.sg.tensors.append(zt)
     if sub.get('ioorder') == 'rev':
       # subgraph inputs/outputs listed in the opposite order (e.g. the int32
       # ids input before the float input)
